@@ -1088,7 +1088,7 @@ func rsSuspectTiming(sc *rsScenario, o *rsObs) bool {
 			fired++
 		}
 	}
-	return n > fired || o.Stuck != ""
+	return n > fired
 }
 
 type rsFamily struct {
